@@ -711,7 +711,7 @@ theorem call_ctrl_eq_target_default {atol : α} {b : Builder α} {i : Int} (h0 :
   rw [callGate, hf]
   simp [bindArgs, GExpr.eval, envQubit, Env.find?, evalNamed, hx, SExpr.eval, bind, Except.bind, pure, Except.pure]
   cases hb : mkBSR atol i (intToScalar 1, intToScalar 0, intToScalar 0) π (π / sc 2) with
-  | error e => simp [mkBSR_error hb]
+  | error e => simp [mkBSR_error_value hb]
   | ok g =>
     obtain ⟨a, rfl⟩ := mkBSR_ok hb
     simp [mkCtrl, hasDup, Gate.operands]
